@@ -110,7 +110,10 @@ def records(tier, seed):
     nseeds = 4 if tier == "quick" else 40
     for s in range(seed, seed + nseeds):
         for ci, cfg in enumerate(CFGS):
-            bad, info = check_episode(s, cfg)
+            try:
+                bad, info = check_episode(s, cfg)
+            except Exception as ex:
+                bad, info = [("episode_runs", {"error": "%s: %s" % (type(ex).__name__, str(ex)[:200])})], {"trades": 1}
             acc.case((s, ci), nontrivial=info["trades"] > 0, sample={"seed": s, "config": list(cfg), "info": info} if ci == 2 else None)
             acc.validated += 1
             for nm, d in bad:
